@@ -1,4 +1,4 @@
-import DFV.Lemmas.RatFloor
+import DFV.Lemmas.C01
 /-!
 # C01 — mesh cells tile the region; index ↔ coordinate maps are mutually inverse
 
@@ -125,5 +125,285 @@ theorem cell_unique (lo c x : Rat) (hc : 0 < c) (j k : Nat)
   have h1' : j < k + 1 := by exact_mod_cast h1
   have h2' : k < j + 1 := by exact_mod_cast h2
   omega
+
+/-- the centre of an in-range cell lies in the closed region -/
+theorem centre_in_region_axis (m : Mesh) (a : Nat) (i : Nat) (hi : i < m.nAt a)
+    (hr : m.region.lo a < m.region.hi a) :
+    m.region.lo a ≤ m.centreAx a (i : Int) ∧ m.centreAx a (i : Int) ≤ m.region.hi a := by
+  have hc := cell_pos m a (by omega) hr
+  have hcov := cells_cover_edges m a (by omega)
+  unfold Region.edge at hcov
+  unfold centreAx
+  have hiq : ((i : Int) : Rat) + 1 ≤ (m.nAt a : Rat) := by
+    have : (i : Int) + 1 ≤ (m.nAt a : Int) := by omega
+    exact_mod_cast this
+  have h0 : (0 : Rat) ≤ ((i : Int) : Rat) := by exact_mod_cast (Int.natCast_nonneg i)
+  constructor
+  · nlinarith
+  · nlinarith
+
+/-- index → centre → index is the identity (list level, every dimension) -/
+theorem roundtrip (m : Mesh) (hm : m.Inv) (i : List Nat) (hi : inRange m.n i = true) :
+    m.point2index (m.centre i) = .ok i := by
+  obtain ⟨hr, hn, hpos⟩ := hm
+  have hlen : i.length = m.ndim := by
+    have := inRange_length m.n i hi
+    rw [this, hn]; rfl
+  have hin : ∀ a, a < m.ndim → i.getD a 0 < m.nAt a := by
+    intro a ha
+    exact inRange_getD m.n i hi a (by rw [hn]; exact ha)
+  have hlohi : ∀ a, a < m.ndim → m.region.lo a < m.region.hi a := fun a ha => hr.2.2.2.2.2 a ha
+  unfold point2index
+  have h1 : (m.centre i).length = m.ndim := by simp [centre]
+  rw [if_neg (not_not.mpr h1)]
+  have hcont : m.region.containsPt (m.centre i) = true := by
+    unfold Region.containsPt
+    have : decide ((m.centre i).length = m.region.ndim) = true := by
+      have h1' : (m.centre i).length = m.region.ndim := h1
+      simpa using h1'
+    rw [this, Bool.true_and, allLt_iff]
+    intro a ha
+    have ha : a < m.ndim := ha
+    have hg : (m.centre i).getD a 0 = m.centreAx a ((i.getD a 0 : Nat) : Int) := by
+      unfold centre; rw [getD_tab _ _ _ _ ha]
+    rw [hg]
+    obtain ⟨c1, c2⟩ := centre_in_region_axis m a (i.getD a 0) (hin a ha) (hlohi a ha)
+    exact containsAx_of_exact _ _ _ c1 c2
+  rw [hcont]
+  simp only [Bool.not_true, Bool.false_eq_true, if_false]
+  congr 1
+  symm
+  apply eq_tab_of_getD i m.ndim _ 0 hlen
+  intro a ha
+  have hg : (m.centre i).getD a 0 = m.centreAx a ((i.getD a 0 : Nat) : Int) := by
+    unfold centre; rw [getD_tab _ _ _ _ ha]
+  rw [hg, roundtrip_axis m a (i.getD a 0) (hin a ha) (hlohi a ha)]
+
+/-- the per-axis list of cell centres (`Mesh.cells`, built with linspace) is `pmin + (j+½)·cell` -/
+theorem cells_eq_centres (m : Mesh) (a : Nat) (ha : a < m.ndim) (hn : 0 < m.nAt a) (j : Nat) (hj : j < m.nAt a) :
+    ((m.cells).getD a []).getD j 0 = m.region.lo a + ((j : Rat) + 1/2) * m.cellAt a := by
+  have hcov := cells_cover_edges m a hn
+  unfold Region.edge at hcov
+  unfold cells
+  rw [getD_tab _ _ _ _ ha]
+  unfold linspace
+  by_cases h1 : m.nAt a = 1
+  · have hj0 : j = 0 := by omega
+    subst hj0
+    rw [if_pos h1]
+    simp
+    ring
+  · rw [if_neg h1, getD_tab _ _ _ _ hj]
+    have hnq : (m.nAt a : Rat) - 1 ≠ 0 := by
+      have : (2 : Rat) ≤ (m.nAt a : Rat) := by exact_mod_cast (by omega : 2 ≤ m.nAt a)
+      intro h; linarith
+    have hdiff : (m.region.hi a - m.cellAt a / 2 - (m.region.lo a + m.cellAt a / 2)) = ((m.nAt a : Rat) - 1) * m.cellAt a := by
+      linarith
+    rw [hdiff]
+    field_simp
+    ring
+
+/-- the per-axis list of vertices (`Mesh.vertices`) is `pmin + j·cell`, `j = 0 … n` -/
+theorem vertices_eq_faces (m : Mesh) (a : Nat) (ha : a < m.ndim) (hn : 0 < m.nAt a) (j : Nat) (hj : j ≤ m.nAt a) :
+    ((m.vertices).getD a []).getD j 0 = m.region.lo a + (j : Rat) * m.cellAt a := by
+  have hcov := cells_cover_edges m a hn
+  unfold Region.edge at hcov
+  unfold vertices
+  rw [getD_tab _ _ _ _ ha]
+  unfold linspace
+  have h1 : ¬ (m.nAt a + 1 = 1) := by omega
+  rw [if_neg h1, getD_tab _ _ _ _ (by omega)]
+  have hnq : (m.nAt a : Rat) ≠ 0 := by exact_mod_cast (by omega : m.nAt a ≠ 0)
+  push_cast
+  have : (m.nAt a : Rat) + 1 - 1 = (m.nAt a : Rat) := by ring
+  rw [this]
+  have hd : m.region.hi a - m.region.lo a = (m.nAt a : Rat) * m.cellAt a := by linarith
+  rw [hd]
+  field_simp
+
+/-- the constructor does not depend on the order in which the two corners are given -/
+theorem corner_order (p1 p2 : List Rat) (d u : Option (List String)) (tol : Rat) :
+    Region.mk? p1 p2 d u tol = Region.mk? p2 p1 d u tol := by
+  unfold Region.mk?
+  by_cases hl : p1.length = p2.length
+  · have hl' : p2.length = p1.length := hl.symm
+    rw [if_neg (not_not.mpr hl), if_neg (not_not.mpr hl')]
+    rw [← hl]
+    by_cases h0 : p1.length = 0
+    · rw [if_pos h0, if_pos h0]
+    · rw [if_neg h0, if_neg h0]
+      have hsym : allLt p1.length (fun a => decide (p1.getD a 0 ≠ p2.getD a 0))
+          = allLt p1.length (fun a => decide (p2.getD a 0 ≠ p1.getD a 0)) := by
+        congr 1; funext a; simp [ne_comm]
+      have hmin : (tab p1.length fun a => min (p1.getD a 0) (p2.getD a 0))
+          = tab p1.length fun a => min (p2.getD a 0) (p1.getD a 0) :=
+        tab_congr _ _ _ fun a _ => min_comm _ _
+      have hmax : (tab p1.length fun a => max (p1.getD a 0) (p2.getD a 0))
+          = tab p1.length fun a => max (p2.getD a 0) (p1.getD a 0) :=
+        tab_congr _ _ _ fun a _ => max_comm _ _
+      rw [hsym, hmin, hmax]
+  · have hl' : ¬ p2.length = p1.length := fun h => hl h.symm
+    rw [if_pos hl, if_pos hl']
+
+/-- out-of-range or wrong-length indices are rejected -/
+theorem index_rejected (m : Mesh) (idx : List Int)
+    (h : idx.length ≠ m.ndim ∨ ∃ a, a < m.ndim ∧ (idx.getD a 0 < 0 ∨ (m.nAt a : Int) ≤ idx.getD a 0)) :
+    m.index2point idx = .error .index := by
+  unfold index2point
+  by_cases hl : idx.length = m.ndim
+  · rw [if_neg (not_not.mpr hl)]
+    rcases h with h | ⟨a, ha, hb⟩
+    · exact absurd hl h
+    · have : allLt m.ndim (fun a => decide (0 ≤ idx.getD a 0) && decide (idx.getD a 0 < (m.nAt a : Int))) = false := by
+        apply allLt_false_of _ _ a ha
+        rcases hb with hb | hb
+        · have : decide (0 ≤ idx.getD a 0) = false := by simpa using hb
+          rw [this]; rfl
+        · have : decide (idx.getD a 0 < (m.nAt a : Int)) = false := by simpa using hb
+          rw [this, Bool.and_false]
+      rw [this]; rfl
+  · rw [if_pos hl]
+
+/-- a point with a coordinate outside the tolerance band of `Region.__contains__` is rejected -/
+theorem point_rejected (m : Mesh) (p : List Rat)
+    (h : p.length ≠ m.ndim ∨ ∃ a, a < m.ndim ∧ m.region.containsAx a (p.getD a 0) = false) :
+    m.point2index p = .error .value := by
+  unfold point2index
+  by_cases hl : p.length = m.ndim
+  · rw [if_neg (not_not.mpr hl)]
+    rcases h with h | ⟨a, ha, hb⟩
+    · exact absurd hl h
+    · have : m.region.containsPt p = false := by
+        unfold Region.containsPt
+        have : allLt m.region.ndim (fun a => m.region.containsAx a (p.getD a 0)) = false :=
+          allLt_false_of _ _ a ha hb
+        rw [this]; simp
+      rw [this]; rfl
+  · rw [if_pos hl]
+
+/-- … and below the lower face, beyond the band `atol + rtol·|x|`, the axis test indeed fails -/
+theorem containsAx_below (r : Region) (a : Nat) (x : Rat) (hx : x < r.lo a)
+    (hband : r.atol + r.tol * absR x < r.lo a - x) : r.containsAx a x = false := by
+  unfold Region.containsAx Region.isclose
+  have h1 : ¬ (r.lo a ≤ x) := not_le.mpr hx
+  have h2 : ¬ (absR (r.lo a - x) ≤ r.atol + r.tol * absR x) := by
+    rw [absR_eq_abs, abs_of_pos (by linarith)]
+    exact not_le.mpr hband
+  simp [h1, h2]
+
+/-- a point inside the tolerance band below the lower face is accepted by the axis test and
+clipped into the first cell -/
+theorem band_clipped_to_first (m : Mesh) (a : Nat) (x : Rat) (hn : 0 < m.nAt a)
+    (hr : m.region.lo a < m.region.hi a) (hx : x < m.region.lo a) : m.indexAx a x = 0 := by
+  have hc := cell_pos m a hn hr
+  unfold indexAx
+  have hq : (x - m.region.lo a) / m.cellAt a < 0 := div_neg_of_neg_of_pos (by linarith) hc
+  have hf : ((x - m.region.lo a) / m.cellAt a).floor < 0 := by
+    apply rat_floor_lt; simpa using hq
+  unfold clipInt
+  simp [hf]
+
+
+/-- A mesh requested by cell size exists whenever every edge is exactly a whole number
+(≥ 1) of cells; its counts are those whole numbers, so `n · cell = edges` exactly. -/
+theorem by_cell_exact (r : Region) (cell : List Rat) (k : Nat → Nat)
+    (hlen : cell.length = r.ndim) (hpos : ∀ c ∈ cell, 0 < c)
+    (hk : ∀ a, a < r.ndim → 0 < k a ∧ r.edge a = (k a : Rat) * cell.getD a 0)
+    (bc : String) (hbc : bcOk r.dims bc.toLower = true) :
+    Mesh.mkCell? r cell bc = .ok { region := r, n := tab r.ndim k, bc := bc.toLower, subs := [] } := by
+  have hc : ∀ a, a < r.ndim → 0 < cell.getD a 0 := by
+    intro a ha
+    have : cell.getD a 0 = cell[a]'(by rw [hlen]; exact ha) := by
+      simp [List.getD_eq_getElem?_getD, List.getElem?_eq_getElem (by rw [hlen]; exact ha : a < cell.length)]
+    rw [this]; exact hpos _ (List.getElem_mem _)
+  unfold Mesh.mkCell?
+  rw [if_neg (not_not.mpr hlen)]
+  have h1 : cell.any (fun c => decide (c ≤ 0)) = false := by
+    rw [List.any_eq_false]; intro c hcm; have := hpos c hcm; simp; exact this
+  rw [h1]
+  simp only [Bool.false_eq_true, if_false]
+  have h2 : r.containsPt (tab r.ndim fun a => r.lo a + cell.getD a 0) = true := by
+    unfold Region.containsPt
+    simp only [tab_length, decide_true, Bool.true_and]
+    rw [allLt_iff]; intro a ha
+    rw [getD_tab _ _ _ _ ha]
+    obtain ⟨hk0, hke⟩ := hk a ha
+    have hca := hc a ha
+    have e1 : r.lo a ≤ r.lo a + cell.getD a 0 := by linarith
+    have e2 : r.lo a + cell.getD a 0 ≤ r.hi a := by
+      unfold Region.edge at hke
+      have : (1 : Rat) ≤ (k a : Rat) := by exact_mod_cast hk0
+      nlinarith
+    exact containsAx_of_exact _ _ _ e1 e2
+  rw [h2]
+  simp only [Bool.not_true, Bool.false_eq_true, if_false]
+  have h3 : allLt r.ndim (fun a => !notDivisible (r.edge a) (cell.getD a 0) (listMin cell / 1000)) = true := by
+    rw [allLt_iff]; intro a ha
+    obtain ⟨_, hke⟩ := hk a ha
+    unfold notDivisible
+    have : remainder (r.edge a) (cell.getD a 0) = 0 := by
+      rw [hke]
+      have := DFV.C14.remainder_of_multiple (k a : Int) (cell.getD a 0) (hc a ha)
+      simpa using this
+    rw [this]
+    have hn : ¬ (listMin cell / 1000 < 0) := by
+      have := listMin_nonneg cell hpos
+      intro h; have : listMin cell < 0 := by linarith
+      linarith
+    simp [hn]
+  rw [h3]
+  simp only [Bool.not_true, Bool.false_eq_true, if_false]
+  rw [hbc]
+  simp only [Bool.not_true, Bool.false_eq_true, if_false]
+  have h5 : (tab r.ndim fun a => (roundHalfEven (r.edge a / cell.getD a 0)).toNat) = tab r.ndim k := by
+    apply tab_congr; intro a ha
+    obtain ⟨_, hke⟩ := hk a ha
+    have hca := hc a ha
+    have : r.edge a / cell.getD a 0 = ((k a : Int) : Rat) := by
+      rw [hke]; field_simp; simp
+    rw [this, roundHalfEven_int]; simp
+  rw [h5]
+
+/-- … and it is refused when some edge is clearly not a whole number of cells (remainder
+strictly inside the 0.1 % band on both sides) -/
+theorem by_cell_rejects (r : Region) (cell : List Rat) (a : Nat) (ha : a < r.ndim)
+    (h : listMin cell / 1000 < remainder (r.edge a) (cell.getD a 0) ∧
+         remainder (r.edge a) (cell.getD a 0) < cell.getD a 0 - listMin cell / 1000)
+    (bc : String) : ∃ e, Mesh.mkCell? r cell bc = .error e := by
+  unfold Mesh.mkCell?
+  split
+  · exact ⟨_, rfl⟩
+  · split
+    · exact ⟨_, rfl⟩
+    · split
+      · exact ⟨_, rfl⟩
+      · have : allLt r.ndim (fun a => !notDivisible (r.edge a) (cell.getD a 0) (listMin cell / 1000)) = false := by
+          apply allLt_false_of _ _ a ha
+          unfold notDivisible
+          have e1 : decide (listMin cell / 1000 < remainder (r.edge a) (cell.getD a 0)) = true := by
+            simpa using h.1
+          have e2 : decide (remainder (r.edge a) (cell.getD a 0) < cell.getD a 0 - listMin cell / 1000) = true := by
+            simpa using h.2
+          rw [e1, e2]; rfl
+        rw [this]
+        exact ⟨_, rfl⟩
+
+
+/-- `Mesh.indices` enumerates every cell exactly once, first dimension fastest: it is the
+list `unflatF n 0, unflatF n 1, …, unflatF n (Π n − 1)` (so cell `k` of the iteration has
+first-index-fastest flat index `k`, and its length is the cell count). -/
+theorem indices_refines (ns : List Nat) : indicesCode ns = indicesF ns := indicesCode_eq_indicesF ns
+
+theorem indices_length (ns : List Nat) : (indicesCode ns).length = natProd ns := by
+  rw [indices_refines]; simp [indicesF]
+
+/-- entry `k` of the iteration is the multi-index whose first-index-fastest flat index is `k` -/
+theorem indices_entry (ns : List Nat) (k : Nat) (hk : k < natProd ns) :
+    flatF ns ((indicesCode ns).getD k []) = k := by
+  rw [indices_refines]
+  unfold indicesF
+  rw [List.getD_eq_getElem?_getD, List.getElem?_map, List.getElem?_range hk]
+  simp only [Option.map_some, Option.getD_some]
+  exact flatF_unflatF ns k hk
 
 end DFV.C01
